@@ -572,15 +572,19 @@ class AckMonitor(Monitor):
         for v in views:
             if v.error or v.pn is None or (v.space, v.pn) not in opened:
                 continue
-            if v.ptype == "handshake":
-                valid.add(from_addr)
-            for f in v.frames:
-                if f["name"] == "PATH_RESPONSE":
-                    a = self.challenges.get(ep.name, {}).get(bytes(f["data"]))
-                    if a is not None:
-                        valid.add(a)
             k = (ep.name, v.space)
             if v.pn > self.largest_opened.get(k, -1):
+                # (only a packet that carries the highest number so far is certain to be processed: one that was opened but
+                # lies below what an ACK-of-ACK already pruned is discarded as a possible duplicate, RFC 9000 12.3 —
+                # a late PATH_RESPONSE in such a packet validates nothing, and the model must not claim more than the
+                # endpoint can know)
+                if v.ptype == "handshake":
+                    valid.add(from_addr)
+                for f in v.frames:
+                    if f["name"] == "PATH_RESPONSE":
+                        a = self.challenges.get(ep.name, {}).get(bytes(f["data"]))
+                        if a is not None:
+                            valid.add(a)
                 self.largest_opened[k] = v.pn
                 if not all(f["name"] in self.PROBING for f in v.frames) or before is None:
                     self.active_addr[ep.name] = from_addr
